@@ -51,6 +51,12 @@ def compile_one(job):
     else:
         cmd.insert(1, '-fmax-errors=3')
     p = subprocess.run(cmd, stdout=subprocess.PIPE, stderr=subprocess.STDOUT, universal_newlines=True)
+    for attempt in range(2):
+        if p.returncode in (0, 1) and 'frontend command failed' not in p.stdout and 'internal compiler error' not in p.stdout:
+            break
+        p = subprocess.run(cmd, stdout=subprocess.PIPE, stderr=subprocess.STDOUT, universal_newlines=True)
+    if p.returncode not in (0, 1) or 'frontend command failed' in p.stdout or 'internal compiler error' in p.stdout:
+        return job, -99, p.stdout
     return job, p.returncode, p.stdout
 
 
@@ -101,6 +107,8 @@ def matrix(run, tier):
     in_witness_only = 0
     for (cxx, std, v, combo, w), rc, out in results:
         inst = '%s -std=%s %s [%s]' % (cxx, std, v, combo_name(combo))
+        if rc == -99:
+            raise AnalysisBroken('the compiler crashed (%s): %s' % (inst, out.strip().splitlines()[-1][:200] if out.strip() else ''))
         if rc == 0:
             run.ob('C19.a', inst, True)
         else:
